@@ -76,6 +76,11 @@ pub struct C04Plan {
     #[serde(with = "hexser")]
     pub sentinel: Vec<u8>,
     pub label: String,
+    /// Stalls of the peer: at byte offset `.0` of the stream nothing arrives for `.1` virtual
+    /// milliseconds (offsets ascending). The reader has no timer of its own, so a stall must
+    /// change nothing - unless a change gives it one.
+    #[serde(default)]
+    pub stalls: Vec<(u32, u32)>,
 }
 
 /// Terminal that has everything queued from the start.
@@ -83,6 +88,7 @@ struct Preloaded {
     data: Vec<u8>,
     cut: Option<(u32, CloseKind)>,
     done: bool,
+    stalls: Vec<(u32, u32)>,
 }
 
 impl Preloaded {
@@ -91,13 +97,27 @@ impl Preloaded {
             return;
         }
         self.done = true;
-        match self.cut {
-            Some((at, kind)) => {
-                let at = (at as usize).min(self.data.len());
-                io.release(&self.data[..at]);
-                io.close(kind);
+        let end = match self.cut {
+            Some((at, _)) => (at as usize).min(self.data.len()),
+            None => self.data.len(),
+        };
+        let mut stalls = self.stalls.clone();
+        stalls.sort();
+        let (mut prev, mut gap) = (0usize, 0u64);
+        for (off, ms) in stalls {
+            let off = (off as usize).min(end);
+            if off > prev {
+                io.release_after(gap, &self.data[prev..off]);
+                prev = off;
+                gap = 0;
             }
-            None => io.release(&self.data),
+            gap += ms as u64;
+        }
+        if end > prev {
+            io.release_after(gap, &self.data[prev..end]);
+        }
+        if let Some((_, kind)) = self.cut {
+            io.close(kind);
         }
     }
 }
@@ -203,9 +223,9 @@ fn run_plan(plan: &C04Plan, want_trace: bool) -> RunOut {
         data: stream.clone(),
         cut: plan.cut,
         done: false,
+        stalls: plan.stalls.clone(),
     };
     let (conn, h) = sim_conn(0, plan.sched.clone(), Box::new(Sink), log.clone());
-    h.with_io(|io| term.preload(io));
     let mut pt = PacketTransport { source: conn };
     #[derive(Default)]
     struct Got {
@@ -217,8 +237,11 @@ fn run_plan(plan: &C04Plan, want_trace: bool) -> RunOut {
     let res = {
         let got = got.clone();
         let h2 = h.clone();
+        let h3 = h.clone();
         guarded(move || {
             let fut = async {
+                // inside the runtime: delayed releases are measured on the simulated clock
+                h3.with_io(|io| term.preload(io));
                 for _ in 0..calls {
                     let r = pt.read_packet::<RawFrame>().await;
                     let cur = h2.cursor();
@@ -360,7 +383,10 @@ fn finish(mut out: RunOut, log: &SharedLog, plan: &C04Plan, want_trace: bool) ->
         }
     }
     out.shape = sh.finish();
-    out.nontrivial = !plan.sched.is_trivial() || plan.cut.is_some() || plan.frames.len() > 1;
+    out.nontrivial = !plan.sched.is_trivial() || plan.cut.is_some() || plan.frames.len() > 1 || !plan.stalls.is_empty();
+    if !plan.stalls.is_empty() {
+        out.stats.hit("fault.peer_stall");
+    }
     if plan.cut.is_some() {
         out.stats.hit("fault.stream_cut");
     }
@@ -466,6 +492,7 @@ impl Check for C04 {
                 cut: None,
                 sentinel: sentinel(),
                 label: "header".into(),
+                stalls: vec![],
             }
         }));
         // (b) every partition of short streams (covers 3- and 5-byte headers split everywhere)
@@ -483,6 +510,7 @@ impl Check for C04 {
                 cut: None,
                 sentinel: sentinel(),
                 label: "partitions".into(),
+                stalls: vec![],
             }
         }));
         // stream B: extended header: 5 header bytes split everywhere, body 255 in one piece or bytewise
@@ -500,6 +528,7 @@ impl Check for C04 {
                 cut: None,
                 sentinel: sentinel(),
                 label: "partitions_ext".into(),
+                stalls: vec![],
             }
         }));
         // (c) end of stream at every byte position of a multi-frame stream
@@ -534,6 +563,38 @@ impl Check for C04 {
                     cut: Some((at, kind)),
                     sentinel: sentinel(),
                     label: "eof".into(),
+                    stalls: vec![],
+                }
+            }));
+        }
+        // (c2) the peer stalls at every byte position of a four-packet stream (inside 3- and 5-byte
+        // headers, inside bodies, between packets) for 1 ms .. 1 h of virtual time: read_packet has
+        // no timer, so nothing may change
+        {
+            let frames = vec![
+                FrameSpec { class: 0x80, instr: 0x00, len: 0, fill: 0, via_writer: false },
+                FrameSpec { class: 0x04, instr: 0xff, len: 2, fill: 0x17, via_writer: false },
+                FrameSpec { class: 0x06, instr: 0xd1, len: 256, fill: 0x41, via_writer: true },
+                FrameSpec { class: 0x06, instr: 0x1e, len: 1, fill: 0x6c, via_writer: false },
+            ];
+            // offsets: every position of the first two packets, of the extended header and a few
+            // body bytes of the third, and around the last
+            let total: u32 = frames.iter().map(|f| f.reference().len() as u32).sum::<u32>() + 5;
+            let mut offs: Vec<u32> = (0..=16).collect();
+            offs.extend(total - 12..=total);
+            let durs = [1u32, 999, 4_999, 5_001, 30_000, 61_000, 3_600_000];
+            let n = offs.len() as u64 * durs.len() as u64;
+            fams.push(Family::new("stall_at_byte_positions_x_durations", n, true, move |i, _| {
+                let off = offs[(i / durs.len() as u64) as usize];
+                let ms = durs[(i % durs.len() as u64) as usize];
+                C04Plan {
+                    frames: frames.clone(),
+                    sched: if i % 2 == 0 { Sched::whole() } else { Sched::one_byte() },
+                    wsched: Sched::whole(),
+                    cut: None,
+                    sentinel: sentinel(),
+                    label: "stall".into(),
+                    stalls: vec![(off, ms)],
                 }
             }));
         }
@@ -554,6 +615,13 @@ impl Check for C04 {
             } else {
                 None
             };
+            let mut stalls = vec![];
+            if rng.pct(20) {
+                for _ in 0..1 + rng.usize_below(3) {
+                    stalls.push((rng.below(total as u64 + 1) as u32, *rng.pick(&[1u32, 50, 2_000, 5_500, 70_000, 1_000_000])));
+                }
+                stalls.sort();
+            }
             C04Plan {
                 frames,
                 sched: Sched::random(rng),
@@ -561,6 +629,7 @@ impl Check for C04 {
                 cut,
                 sentinel: sentinel(),
                 label: "random".into(),
+                stalls,
             }
         }));
         fams
@@ -585,6 +654,14 @@ impl Check for C04 {
         p.sched.read_pending_pct = 0;
         p.sched.read_list.clear();
         push(p);
+        if !plan.stalls.is_empty() {
+            let mut p = plan.clone();
+            p.stalls.clear();
+            push(p);
+            let mut p = plan.clone();
+            p.stalls.truncate(1);
+            push(p);
+        }
         if plan.cut.is_none() {
             for i in 0..plan.frames.len() {
                 if plan.frames.len() > 1 {
@@ -607,7 +684,7 @@ impl Check for C04 {
     }
 
     fn rule_text(&self) -> String {
-        "one run = k frames (real write_packet output of PrintLine/Ack for via_writer frames, reference framing otherwise) + sentinel, read back by the real read_packet::<RawFrame> over a SimConn; families: writer/reader header agreement per body length (thorough: all 0..65535; quick: 0..600, the top 16, boundary and PRNG lengths), all 2^11 partitions of a 12-byte three-packet stream, all partitions of an extended (5-byte) header, end of stream at every byte position of a five-packet stream (EOF and ECONNRESET), PRNG streams x PRNG schedules x optional cut; distinct = hash of (frame lengths, cut position, first 64 read sizes); non-trivial = non-whole schedule, a cut, or more than one frame".into()
+        "one run = k frames (real write_packet output of PrintLine/Ack for via_writer frames, reference framing otherwise) + sentinel, read back by the real read_packet::<RawFrame> over a SimConn; families: writer/reader header agreement per body length (thorough: all 0..65535; quick: 0..600, the top 16, boundary and PRNG lengths), all 2^11 partitions of a 12-byte three-packet stream, all partitions of an extended (5-byte) header, end of stream at every byte position of a five-packet stream (EOF and ECONNRESET), a stall of the peer (1 ms .. 1 h of virtual time) at every byte position of the headers and around the packet boundaries of a four-packet stream, PRNG streams x PRNG schedules x optional cut x optional stalls; distinct = hash of (frame lengths, cut position, first 64 read sizes); non-trivial = non-whole schedule, a cut, or more than one frame".into()
     }
     fn assumptions(&self) -> Vec<String> {
         vec![
